@@ -201,6 +201,18 @@ class CommandCtx:
                     return None
                 raw, inp = pool3[variant % len(pool3)]
                 chosen[s] = (raw, inp, None)
+        # an invalid command-line value that is a fragment of the VALID value a lower source gives (a typo, an unset
+        # shell variable): still the command line's error
+        if pattern.get("cli") == 0 and "cli" in chosen and isinstance(chosen["cli"][0], str) and (variant + len(name)) % 2 == 1:
+            for s in ("env", "file"):
+                if s in chosen and pattern[s] == 1 and isinstance(chosen[s][0], str) and len(chosen[s][0]) >= 2:
+                    v = chosen[s][0]
+                    for sub in (v[1:], v[:-1], v[1:-1]):
+                        if sub and not sub.startswith("-") and L.reference(
+                                self.cfg_type, {**p.kwargs_wo, name: L.cli_input(o, sub)}, name)[0] == "invalid":
+                            chosen["cli"] = (sub, L.cli_input(o, sub), None)
+                            break
+                    break
         # ids
         ids: dict[str, int] = {}
         val = {"cli": -1, "env": -1, "file": -1, "default": -1}
